@@ -7,11 +7,22 @@ import (
 
 func evalRange(node *ast.RangeLiteral, env *object.Env) object.PanObject {
 	// NOTE: *ast.RangeLiteral has nil (not NilLiteral) if nothing is set
-	return object.NewPanRange(
-		evalOrNil(node.Start, env),
-		evalOrNil(node.Stop, env),
-		evalOrNil(node.Step, env),
-	)
+	start := evalOrNil(node.Start, env)
+	if err, ok := start.(*object.PanErr); ok {
+		return appendStackTrace(err, node.Source())
+	}
+
+	stop := evalOrNil(node.Stop, env)
+	if err, ok := stop.(*object.PanErr); ok {
+		return appendStackTrace(err, node.Source())
+	}
+
+	step := evalOrNil(node.Step, env)
+	if err, ok := step.(*object.PanErr); ok {
+		return appendStackTrace(err, node.Source())
+	}
+
+	return object.NewPanRange(start, stop, step)
 }
 
 func evalOrNil(node ast.Node, env *object.Env) object.PanObject {
